@@ -27,7 +27,8 @@ for mid in ids:
     if not mine:
         rows.append("| %s | %s | %s | - | %s |" % (mid, meta.get("property", ""), summ, notes.get(mid, "not run in this campaign"))); other += 1; continue
     for (m, pr), (r, run) in sorted(mine):
-        scope = ("subset `%s` of the quick list" % run["only"]) if run.get("only") else "full quick list"
+        tn = run.get("tier", "quick")
+        scope = ("subset `%s` of the %s list" % (run["only"], tn)) if run.get("only") else "full %s list" % tn
         if run["exit"] == 1:
             hs = sorted(set(re.findall(r"replay/C\d+-([\w]+)\.json", " ".join(run["violation_lines"]))))
             res = "**caught**: VIOLATION (replayed natively) by " + ", ".join("`%s`" % h for h in hs[:3]); caught += 1
